@@ -198,9 +198,18 @@ fn pop_packet(rx: &NCReadStream<Vec<u8>>) -> Option<Vec<u8>> {
 /// `len` concrete, contents symbolic) agrees with the reference automaton: successor
 /// state, emitted packet, nothing else emitted.  fix_bits off.
 pub fn step_equiv(mode: u8, len: usize, min_size: usize, max_size: usize, checksum: bool) {
+    step_equiv2(mode, len, min_size, max_size, checksum, true)
+}
+
+/// `use_setter == false`: checksum checking is left at the constructor's default (on).
+pub fn step_equiv2(mode: u8, len: usize, min_size: usize, max_size: usize, checksum: bool, use_setter: bool) {
     let (_tx, rxs) = new_stream_sized::<u8>(2);
     let (mut d, out) = HdlcDeframer::new(rxs, min_size, max_size);
-    d.set_checksum(checksum);
+    if use_setter {
+        d.set_checksum(checksum);
+    } else {
+        assert!(checksum, "harness: the default is checksum on");
+    }
     let small: u8 = any();
     if mode == acc::M_SYNCED {
         assume(small <= 5);
